@@ -228,3 +228,93 @@ def interpolation_exactness(K, dim, kernel):
     X = [K.aold(pos, (a, 0)) for a in range(dim)]
     K.ensures_eq("interpolated_value_is_exact_at_the_marker", K.aval(lag, (0,)),
                  alpha + sum(beta[a] * X[a] for a in range(dim)))
+
+
+# =============================================================================================
+# the communicator CLASS: which generator, with which parameters, ends up behind which attribute
+# =============================================================================================
+class _GeneratedKernel:
+    """contract stub of a generated kernel: remembers the generator and the parameters it was generated with"""
+
+    def __init__(self, generator, kwargs):
+        self.generator, self.kwargs = generator, kwargs
+
+
+@unit("communicator_class_wiring", props=("C06", "C07"), kernels=False,
+      configs=[dict(dim=d, kernel=k, n_components=c) for d in (2, 3) for k in ("cosine", "peskin") for c in (1, "dim")],
+      assumes=("the generator functions are used through their contracts (proved in interp_weights, interpolation_closed_form, "
+               "spreading_*): the class is checked for handing each generator THIS instance's parameters",
+               "history bounded: two earlier communicators (another spacing and shift; another precision) constructed in the same process"))
+def communicator_class_wiring(K, dim, kernel, n_components):
+    """EulerianLagrangianGridCommunicator{2,3}D.__init__, called after other communicators with different parameters were
+    constructed in the same process: every kernel attribute of the new object was generated by the right generator with
+    the new object's own dx / shift / marker count / width / component count / precision."""
+    import importlib
+    mod = importlib.import_module(MOD.format(d=dim))
+    nc = dim if n_components == "dim" else 1
+    gens = [n for n in dir(mod) if n.startswith("generate_") and n.endswith(f"_{dim}d")]
+    saved = {n: getattr(mod, n) for n in gens}
+
+    def recorder(name):
+        def gen(*a, **kw):
+            if a:
+                raise NotImplementedError(f"communicator wiring stub: positional arguments to {name}")
+            return _GeneratedKernel(name, kw)
+        gen.__name__ = gen.__qualname__ = name
+        return gen
+
+    cls = K.repo(f"{MOD.format(d=dim)}:EulerianLagrangianGridCommunicator{dim}D")
+    n_mark = 5
+    dx, shift = 0.125, 0.0625
+    try:
+        for n in gens:
+            setattr(mod, n, recorder(n))
+        # call history: communicators of other bodies / other grids made earlier in the same process
+        cls(dx=0.25, eul_grid_coord_shift=0.125, num_lag_nodes=n_mark, interp_kernel_width=W, real_t=np.float64,
+            n_components=nc, interp_kernel_type=kernel)
+        cls(dx=dx, eul_grid_coord_shift=0.0, num_lag_nodes=n_mark, interp_kernel_width=W, real_t=np.float32,
+            n_components=nc, interp_kernel_type=kernel)
+        obj = cls(dx=dx, eul_grid_coord_shift=shift, num_lag_nodes=n_mark, interp_kernel_width=W, real_t=np.float64,
+                  n_components=nc, interp_kernel_type=kernel)
+    finally:
+        for n, f in saved.items():
+            setattr(mod, n, f)
+    expect = {
+        "local_eulerian_grid_support_of_lagrangian_grid_kernel": (
+            f"generate_local_eulerian_grid_support_of_lagrangian_grid_kernel_{dim}d",
+            dict(dx=dx, eul_grid_coord_shift=shift, num_lag_nodes=n_mark, interp_kernel_width=W)),
+        "eulerian_to_lagrangian_grid_interpolation_kernel": (
+            f"generate_eulerian_to_lagrangian_grid_interpolation_kernel_{dim}d",
+            dict(dx=dx, num_lag_nodes=n_mark, interp_kernel_width=W, n_components=nc)),
+        "lagrangian_to_eulerian_grid_interpolation_kernel": (
+            f"generate_lagrangian_to_eulerian_grid_interpolation_kernel_{dim}d",
+            dict(num_lag_nodes=n_mark, interp_kernel_width=W, n_components=nc)),
+        "interpolation_weights_kernel": (
+            f"generate_{kernel}_interpolation_weights_kernel_{dim}d", dict(dx=dx, interp_kernel_width=W, real_t=np.float64)),
+    }
+    for attr, (gname, kw) in expect.items():
+        got = getattr(obj, attr, None)
+        ok = isinstance(got, _GeneratedKernel) and got.generator == gname and all(
+            k in got.kwargs and (got.kwargs[k] is v if isinstance(v, type) else got.kwargs[k] == v) for k, v in kw.items())
+        K.ensures(f"{attr}_generated_for_this_instance", ok,
+                  note="" if ok else f"got {getattr(got, 'generator', got)} with {getattr(got, 'kwargs', None)}; expected {gname} with {kw}")
+    if K.mode != "sym":
+        # the same history on the compiled kernels (bounded native run): the LAST communicator interpolates the constant
+        # field 1 to exactly 1 at markers two cells inside, whatever was constructed before it
+        shape = (12,) * dim
+        comms = [cls(dx=0.25, eul_grid_coord_shift=0.125, num_lag_nodes=n_mark, interp_kernel_width=W, real_t=np.float64,
+                     n_components=nc, interp_kernel_type=kernel),
+                 cls(dx=dx, eul_grid_coord_shift=shift, num_lag_nodes=n_mark, interp_kernel_width=W, real_t=np.float64,
+                     n_components=nc, interp_kernel_type=kernel)]
+        c = comms[-1]
+        pos = (2.0 + K.rng.uniform(0, shape[0] - 5, size=(dim, n_mark))) * dx + shift
+        sup = np.zeros((dim,) + (2 * W,) * dim + (n_mark,))
+        near = np.zeros((dim, n_mark), dtype=int)
+        wts = np.zeros((2 * W,) * dim + (n_mark,))
+        c.local_eulerian_grid_support_of_lagrangian_grid_kernel(sup, near, pos)
+        c.interpolation_weights_kernel(wts, sup)
+        eul = np.ones(((nc,) if nc > 1 else ()) + shape)
+        lag = np.zeros(((nc,) if nc > 1 else ()) + (n_mark,))
+        c.eulerian_to_lagrangian_grid_interpolation_kernel(lag, eul, wts, near)
+        for idx in np.ndindex(*lag.shape):
+            K.ensures_eq(f"constant_field_interpolates_to_itself{list(idx)}", float(lag[idx]), 1.0, props=("C06",))
